@@ -27,6 +27,15 @@ impl Driven for D {
          _ => panic!("verif harness: unknown relation {}", rel),
       }
    }
+   fn clear(&mut self, rel: &str) {
+      match rel {
+         "u" => { self.0.u = Default::default(); },
+         "w" => { self.0.w = Default::default(); },
+         "c" => { self.0.c = Default::default(); },
+         "d" => { self.0.d = Default::default(); },
+         _ => panic!("verif harness: unknown relation {}", rel),
+      }
+   }
    fn run(&mut self) { self.0.run(); }
    fn dump(&self) -> Value {
       let mut m: Vec<(String, Value)> = vec![];
